@@ -211,8 +211,60 @@ def _patterns(excl):
     return list(EXCL[excl]) if isinstance(excl, int) else list(excl)
 
 
-def real_scan(root, excl_k, cfg=0, entry=0):
-    """-> (exception text or None, analysed relative paths); cfg: Configuration as `codelimit scan`
+SPELLINGS = 7
+SPELLING_NAMES = ["absolute", "absolute through a symbolic link", "absolute with `..`", "`.` with cwd = the root",
+                  "relative name with cwd = the parent", "`../name` with cwd = the root",
+                  "relative through a symbolic link with cwd = the parent"]
+
+
+def spell_root(root, k):
+    """the root of a scan as a user may name it -> (argument, working directory or None): 0 the absolute,
+    symlink-free path; 1 an absolute path through a symbolic link (a sibling `<root>.lnk`, made on demand); 2 an
+    absolute path with a `..` component; 3 `.` with the root as working directory (plain `codelimit scan`);
+    4 the relative name from the parent directory; 5 `../name` from inside the root; 6 a relative path through the
+    symbolic link from the parent directory"""
+    k %= SPELLINGS
+    root = root.rstrip("/")
+    parent, name = os.path.dirname(root), os.path.basename(root)
+    if k in (1, 6):
+        link = root + ".lnk"
+        if not os.path.islink(link):
+            os.symlink(name, link)
+    if k == 0:
+        return root, None
+    if k == 1:
+        return root + ".lnk", None
+    if k == 2:
+        return os.path.join(root, "..", name), None
+    if k == 3:
+        return ".", root
+    if k == 4:
+        return name, parent
+    if k == 5:
+        return os.path.join("..", name), root
+    return name + ".lnk", parent
+
+
+def unspell_root(root):
+    with contextlib.suppress(OSError):
+        os.unlink(root.rstrip("/") + ".lnk")
+
+
+@contextlib.contextmanager
+def working_directory(cwd):
+    if cwd is None:
+        yield
+        return
+    old = os.getcwd()
+    os.chdir(cwd)
+    try:
+        yield
+    finally:
+        os.chdir(old)
+
+
+def real_scan(root, excl_k, cfg=0, entry=0, spelling=0):
+    """-> (exception text or None, analysed relative paths); spelling: how the root is named (`spell_root`); cfg: Configuration as `codelimit scan`
     sets it up: bit 0 = -v / `verbose: true` (Configuration.verbose and the root logger at INFO, as
     setup_logging does), bit 1 = a GitHub checkout (Configuration.repository).  excl_k: an index into
     EXCL or a list of patterns.  entry: the observation point - 0 `scan_command(root)` in this process,
@@ -221,10 +273,11 @@ def real_scan(root, excl_k, cfg=0, entry=0):
     does, then scan_command) in a forked child, 2 the typer object itself in a fresh interpreter
     (`python -m codelimit scan [-v] root`, exclusions in <root>/.codelimit.yml; see cache_cli_worker.py).  The repository of
     entries 1 and 2 is what the command finds out itself (none: the trees are no git checkouts)."""
+    arg, cwd = spell_root(root, spelling)
     if entry == 1:
-        return cli_scan_fork(root, _patterns(excl_k), bool(cfg & 1))
+        return cli_scan_fork(arg, _patterns(excl_k), bool(cfg & 1), cwd)
     if entry == 2:
-        return cli_scan_process(root, _patterns(excl_k), bool(cfg & 1))
+        return cli_scan_process(arg, _patterns(excl_k), bool(cfg & 1), cwd, root)
     import logging
     m = cl()
     C = m["Configuration"]
@@ -238,8 +291,8 @@ def real_scan(root, excl_k, cfg=0, entry=0):
     del LOG[:]
     err = None
     try:
-        with quiet():
-            m["scanmod"].scan_command(m["Path"](root))
+        with quiet(), working_directory(cwd):
+            m["scanmod"].scan_command(m["Path"](arg))
     except BaseException as e:  # noqa: BLE001 - typer.Exit, SystemExit included: a scan must complete
         if isinstance(e, KeyboardInterrupt):
             raise
@@ -285,7 +338,7 @@ def _exit_text(e):
     return "%s: %s" % (type(e).__name__, str(e)[:200])
 
 
-def cli_scan_fork(root, patterns, verbose):
+def cli_scan_fork(root, patterns, verbose, cwd=None):
     """entry 1: `codelimit.__main__.scan` - the function behind `codelimit scan` - in a forked child (the
     command line layer changes Configuration, logging handlers, ... of its process)"""
     m = cl()
@@ -299,6 +352,8 @@ def cli_scan_fork(root, patterns, verbose):
         del LOG[:]
         err = None
         try:
+            if cwd is not None:
+                os.chdir(cwd)
             with quiet():
                 em.scan(m["Path"](root), list(patterns) or None, verbose)
         except BaseException as e:  # noqa: BLE001
@@ -310,14 +365,14 @@ def cli_scan_fork(root, patterns, verbose):
     return out[0], out[1]
 
 
-def cli_scan_process(root, patterns, verbose):
+def cli_scan_process(root, patterns, verbose, cwd=None, real_root=None):
     """entry 2: a fresh interpreter runs the module `codelimit` as a program (cache_cli_worker.py)"""
     import subprocess
     import sys
     # exclusions go through <root>/.codelimit.yml, which only the command line layer reads (with the typer / click
     # of this sandbox every `--exclude` ends in a TypeError of typer's usage formatter); removed after the scan
     args = ["scan"] + (["-v"] if verbose else []) + [root]
-    yml = os.path.join(root, ".codelimit.yml")
+    yml = os.path.join(real_root or root, ".codelimit.yml")
     if patterns:
         with open(yml, "w") as f:
             f.write("exclude: %s\n" % json.dumps(list(patterns)))
@@ -329,7 +384,7 @@ def cli_scan_process(root, patterns, verbose):
     worker = os.path.join(os.path.dirname(os.path.abspath(__file__)), "cache_cli_worker.py")
     try:
         p = subprocess.run([sys.executable, worker] + args, env=env, stdout=subprocess.DEVNULL, stderr=subprocess.PIPE,
-                           cwd=tempfile.gettempdir(), timeout=300)
+                           cwd=cwd or tempfile.gettempdir(), timeout=300)
         try:
             out = json.load(open(res))
         except (OSError, ValueError):
@@ -380,7 +435,7 @@ def _mutation_hook(root, n, counter):
     return hook
 
 
-def interrupted_scan(root, excl_k, cfg, mode, n):
+def interrupted_scan(root, excl_k, cfg, mode, n, spelling=0):
     """a scan in a forked child that is stopped hard (see the module text, op "ks")
     -> (status, exception text, analysed paths, mutations counted), status 'killed' | 'completed' | 'raised'"""
     import sys
@@ -397,7 +452,7 @@ def interrupted_scan(root, excl_k, cfg, mode, n):
                 resource.setrlimit(resource.RLIMIT_FSIZE, (n, n))
             else:
                 sys.addaudithook(_mutation_hook(os.path.abspath(root), n, counter))
-            err, log = real_scan(root, excl_k, cfg)
+            err, log = real_scan(root, excl_k, cfg, 0, spelling)
             os.write(w, json.dumps([err, log, counter[0]]).encode())
         except BaseException:  # noqa: BLE001
             code = 3
@@ -739,6 +794,7 @@ class World:
     def __init__(self, init, excl_k, cfg=0, entry=0):
         self.cur = cl()["CUR"]
         self.entry = entry
+        self.spelling = 0
         self.root = tempfile.mkdtemp(prefix="clw_")
         self.files = {}
         self.excl = excl_k
@@ -756,6 +812,7 @@ class World:
         pre()
 
     def close(self):
+        unspell_root(self.root)
         shutil.rmtree(self.root, ignore_errors=True)
 
     # -- files
@@ -840,10 +897,10 @@ class World:
         cd = None
         if os.path.isdir(d):
             cd = {n: open(os.path.join(d, n), "rb").read() for n in os.listdir(d)}
-        return (dict(self.files), self.excl, cd, len(self.snaps), len(self.words), self.forged, self.cfg, self.oracle_only, self.entry)
+        return (dict(self.files), self.excl, cd, len(self.snaps), len(self.words), self.forged, self.cfg, self.oracle_only, self.entry, self.spelling)
 
     def restore(self, snap):
-        files, excl, cd, nsn, nw, self.forged, self.cfg, self.oracle_only, self.entry = snap
+        files, excl, cd, nsn, nw, self.forged, self.cfg, self.oracle_only, self.entry, self.spelling = snap
         for p in list(self.files):
             if files.get(p) != self.files[p]:
                 self._delete(p)
@@ -911,6 +968,9 @@ class World:
             w = []
         elif k == "ent":
             self.entry = op[1] % ENTRIES
+            w = []
+        elif k == "root":
+            self.spelling = op[1] % SPELLINGS
             w = []
         elif k == "xf":
             d, _ = cache_paths(self.root)
@@ -1068,7 +1128,7 @@ class World:
         """["ks", mode, n]: what the stopped child left on disk becomes a fault of the model"""
         b0, ds0 = self.cache_bytes(), self.dir_state()
         self._forged_check()
-        status, err, analysed, _ = interrupted_scan(self.root, self.excl, self.cfg, mode, n)
+        status, err, analysed, _ = interrupted_scan(self.root, self.excl, self.cfg, mode, n, self.spelling)
         if status == "completed" or (status == "raised" and "File too large" not in err and "Errno 27" not in err):
             # not stopped (or failed for a reason of its own): an ordinary scan
             return self._scan(ran=(b0, err, analysed))
@@ -1096,7 +1156,7 @@ class World:
         if ran is None:
             pre_cache = self.cache_bytes()
             self._forged_check()
-            err, analysed = real_scan(self.root, self.excl, self.cfg, self.entry)
+            err, analysed = real_scan(self.root, self.excl, self.cfg, self.entry, self.spelling)
             # the command line finds the repository out itself (none here): bit 1 has no effect there
             cfg = self.cfg & 1 if self.entry else self.cfg
         else:
@@ -1107,7 +1167,7 @@ class World:
         self.snaps.append(post)
         obs = {"raised": err, "analysed": analysed, "pre_cache": pre_cache, "post_cache": post,
                "dir": self.dir_state(), "files": dict(self.files), "excl": self.excl, "cfg": cfg,
-               "entry": self.entry if ran is None else 0}
+               "entry": self.entry if ran is None else 0, "spelling": self.spelling}
         if obs["dir"] == 3:
             self.oracle_only = True
         return obs
@@ -1317,8 +1377,17 @@ def compare_with_model(rec, reply):
 # A named history is {"named": 1, "files": [[rel, cid]...], "excl": [pattern...], "cfg": k, "entry": e, "ops": [...]}:
 #   ["w",rel,cid] write   ["wb",rel,cid,k] write, mtime 10^k s back   ["d",rel] delete   ["r",a,b] rename keeping the
 #   bytes   ["cp",a,b] copy the bytes (and times)   ["t",rel] touch   ["gi",dir,[line...]] write dir/.gitignore   ["e",[pattern...]] exclusions
-#   ["root",k] spelling of the root: 0 plain, 1 through a symbolic link, 2 through `other/..`   ["cfg",k]  ["ent",k]
+#   ["root",k] spelling of the root and working directory (`spell_root`: absolute, through a symbolic link, with `..`, `.`,
+#   relative, `../name`, relative through a link)   ["cfg",k]  ["ent",k]
 #   ["s"] scan
+#   files that cannot be read (the value of such a path in `files` is -1 - how): ["lnk",rel,cid] rel becomes a symbolic link to a
+#   file with content cid in a folder outside the tree (a shared module linked into the project)   ["brk",rel,how] the file
+#   under rel becomes unreadable (a regular file is moved out and linked first): how 0 the target of the link is deleted, 1
+#   renamed, 2 its folder is moved, 3 rel becomes a link to itself (ELOOP), 4 mode 000 (only when not running as root, else = 0)
+#   ["fix",rel,cid] rel becomes a regular readable file again.  A from-scratch scan of a tree with an unreadable entry may
+#   abort; then the scan with the cache has to abort the same way (equal outcomes), otherwise the reports have to be equal.
+
+UNREADABLE_KINDS = ["target of the link deleted", "target of the link renamed", "folder of the target moved", "link to itself", "mode 000"]
 
 NWORDS = ["f", "new", "delete", "class", "catch", "template", "type", "number", "string", "declare", "readonly",
           "namespace", "async", "await", "print", "exec", "final", "var", "let", "of", "operator", "module"]
@@ -1365,6 +1434,9 @@ def fresh_named(files, gi, excl, cfg=0):
             for rel, cid in sorted(files.items()):
                 fp = os.path.join(d, rel)
                 os.makedirs(os.path.dirname(fp), exist_ok=True)
+                if cid < 0:
+                    make_unreadable(fp, -1 - cid)
+                    continue
                 with open(fp, "wb") as f:
                     f.write(ncontent(cid))
             for dr, lines in sorted(gi.items()):
@@ -1382,6 +1454,19 @@ def fresh_named(files, gi, excl, cfg=0):
     return _NFRESH[key]
 
 
+def make_unreadable(fp, how):
+    """a directory entry fp that cannot be read, made directly (the copy for the from-scratch scan): a dangling
+    symbolic link (how 0-2), a link to itself (3), a file without any permission (4; a dangling link for root)"""
+    if how == 3:
+        os.symlink(os.path.basename(fp), fp)
+    elif how == 4 and os.geteuid() != 0:
+        with open(fp, "wb") as f:
+            f.write(b"x = 1\n")
+        os.chmod(fp, 0)
+    else:
+        os.symlink(os.path.join(os.path.dirname(fp), "no-such-folder", "no-such-file"), fp)
+
+
 class NamedWorld:
     def __init__(self, files, excl=(), cfg=0, entry=0):
         self.cur = cl()["CUR"]
@@ -1391,15 +1476,63 @@ class NamedWorld:
         os.makedirs(os.path.join(self.base, "other"))
         os.symlink("tree", os.path.join(self.base, "link"))
         self.files, self.gi = {}, {}
+        self.nshared = 0
         self.excl, self.cfg, self.entry, self.spelling = list(excl), cfg, entry, 0
         for rel, cid in files:
             self.write(rel, cid)
 
     def close(self):
+        for dp, _dn, fns in os.walk(self.base):
+            for fn in fns:
+                if not os.path.islink(os.path.join(dp, fn)):
+                    with contextlib.suppress(OSError):
+                        os.chmod(os.path.join(dp, fn), 0o600)
         shutil.rmtree(self.base, ignore_errors=True)
 
-    def spelled(self):
-        return [self.root, os.path.join(self.base, "link"), os.path.join(self.base, "other", "..", "tree")][self.spelling]
+    def link_out(self, rel, cid=None):
+        """rel becomes a symbolic link to a file in a new folder outside the tree: with content cid, or (cid None)
+        the regular file that was under rel itself, moved there"""
+        fp = self.fp(rel)
+        self.nshared += 1
+        folder = os.path.join(self.base, "shared", "m%d" % self.nshared)
+        os.makedirs(folder)
+        target = os.path.join(folder, os.path.basename(rel))
+        os.makedirs(os.path.dirname(fp), exist_ok=True)
+        if cid is None:
+            os.replace(fp, target)
+        else:
+            with open(target, "wb") as f:
+                f.write(ncontent(cid))
+            if os.path.lexists(fp):
+                os.unlink(fp)
+            self.files[rel] = cid
+        os.symlink(target, fp)
+
+    def unreadable(self, rel, how):
+        fp = self.fp(rel)
+        how %= len(UNREADABLE_KINDS)
+        if how == 4 and os.geteuid() == 0:
+            how = 0
+        if how == 3:
+            os.unlink(fp)
+            os.symlink(os.path.basename(fp), fp)
+        elif how == 4:
+            if os.path.islink(fp):
+                os.unlink(fp)
+                with open(fp, "wb") as f:
+                    f.write(ncontent(self.files[rel]))
+            os.chmod(fp, 0)
+        else:
+            if not os.path.islink(fp):
+                self.link_out(rel)
+            target = os.readlink(fp)
+            if how == 0:
+                os.unlink(target)
+            elif how == 1:
+                os.replace(target, target + ".moved")
+            else:
+                os.replace(os.path.dirname(target), os.path.dirname(target) + ".moved")
+        self.files[rel] = -1 - how
 
     def fp(self, rel):
         return os.path.join(self.root, rel)
@@ -1407,14 +1540,23 @@ class NamedWorld:
     def write(self, rel, cid):
         fp = self.fp(rel)
         os.makedirs(os.path.dirname(fp), exist_ok=True)
+        if os.path.islink(fp) or (os.path.lexists(fp) and not os.access(fp, os.W_OK)):
+            os.unlink(fp)          # never write through a link
         with open(fp, "wb") as f:
             f.write(ncontent(cid))
         self.files[rel] = cid
 
     def apply(self, op):
         k = op[0]
-        if k == "w":
+        if k in ("cp", "t") and self.files.get(op[1], 0) < 0:
+            return None            # cp -p / touch of an unreadable file fails: nothing changes
+        if k in ("w", "fix"):
             self.write(op[1], op[2])
+        elif k == "lnk":
+            self.link_out(op[1], op[2])
+        elif k == "brk":
+            if op[1] in self.files and self.files[op[1]] >= 0:
+                self.unreadable(op[1], op[2])
         elif k == "wb":
             self.write(op[1], op[2])
             old = time.time() - 10 ** op[3]
@@ -1429,6 +1571,8 @@ class NamedWorld:
                 os.makedirs(os.path.dirname(self.fp(b)), exist_ok=True)
                 os.replace(self.fp(a), self.fp(b))
                 self.files[b] = self.files.pop(a)
+                if self.files[b] == -4 and os.path.basename(a) != os.path.basename(b):
+                    self.files[b] = -1      # a link to its own old name: dangling now
         elif k == "cp":
             a, b = op[1], op[2]
             if a in self.files and a != b:
@@ -1447,7 +1591,7 @@ class NamedWorld:
         elif k == "e":
             self.excl = list(op[1])
         elif k == "root":
-            self.spelling = op[1] % 3
+            self.spelling = op[1] % SPELLINGS
         elif k == "cfg":
             self.cfg = op[1] % CFGS
         elif k == "ent":
@@ -1467,7 +1611,7 @@ class NamedWorld:
 
     def scan(self):
         pre_cache = self.cache_bytes()
-        err, analysed = real_scan(self.spelled(), self.excl, self.cfg, self.entry)
+        err, analysed = real_scan(self.root, self.excl, self.cfg, self.entry, self.spelling)
         return {"raised": err, "analysed": analysed, "pre_cache": pre_cache, "post_cache": self.cache_bytes(),
                 "files": dict(self.files), "gi": {d: list(l) for d, l in self.gi.items()}, "excl": list(self.excl),
                 "cfg": self.cfg & 1 if self.entry else self.cfg, "entry": self.entry}
@@ -1476,8 +1620,16 @@ class NamedWorld:
 def check_named_scan(world, obs):
     try:
         fr, sh = fresh_named(obs["files"], obs["gi"], obs["excl"], obs["cfg"])
+        if "error" in fr and any(c < 0 for c in obs["files"].values()):
+            # the tree holds an entry that cannot be read and a from-scratch scan of it does not complete: the scan with
+            # the cache has to end the same way (equal outcomes; where the exception is seen, the same exception class)
+            if obs["raised"] and (obs["entry"] != 0 or obs["raised"].split(":")[0] == fr["error"].split(":")[0]):
+                return []
+            return ["a from-scratch scan of a copy of the tree (with its unreadable entries %s) ends with %s, the scan with the cache %s" % (
+                sorted(n for n, c in obs["files"].items() if c < 0), fr["error"][:80],
+                "ends with " + obs["raised"][:120] if obs["raised"] else "completes")]
         return judge_scan(world.cur, world.root, obs, fr, sh,
-                          lambda n: md5(ncontent(obs["files"][n])) if n in obs["files"] else None)
+                          lambda n: md5(ncontent(obs["files"][n])) if obs["files"].get(n, -1) >= 0 else None)
     except Exception as e:  # noqa: BLE001
         return ["the outputs of the scan have an unexpected shape: %r" % (e,)]
 
@@ -1496,7 +1648,10 @@ def run_named_history(hist):
                 n = len(json.loads(obs["post_cache"].decode("utf-8"))["codebase"]["files"])
             except Exception:  # noqa: BLE001
                 pass
-            real.append(("named", n, max(0, n - len(obs["analysed"])), len(obs["analysed"]), obs["entry"]))
+            if obs["raised"]:
+                real.append(("named", 0, 0, len(obs["analysed"]), obs["entry"], 1))     # aborted (judged above: as the from-scratch scan)
+            else:
+                real.append(("named", n, max(0, n - len(obs["analysed"])), len(obs["analysed"]), obs["entry"], 0))
         return {"request": "", "real": real, "fails": fails, "final": None, "forged": False, "oracle_only": True, "named": True}
     finally:
         w.close()
